@@ -173,6 +173,13 @@ def c04(rep, tier):
                         'pushSymbols() reuses a per-routine state and resets %s but not %s: a routine inherits the %s of the routine that used the slot before - a GOTO to a mark that only '
                         'an earlier program defines is accepted and lands in that program' % (sorted(written), missing, '/'.join(missing)), 'Compiler/src/gen.cpp:%d' % psf['loc'][1],
                         witness={'input': 'PROGRAM a IN x DO m: x0 := x END; PROGRAM b IN x DO GOTO m END; x1 := b(1)'} if missing else None)
+    # names are compared exactly: the routine table (and every other string-keyed table of the generator) uses the default order
+    from .genrules import lossy_key_orders
+    lko = lossy_key_orders(gf)
+    E.check(not lko, 'routine table: keys', 'no string-keyed container of the generator is ordered by a case-folding or partial comparator',
+            '%s %s is ordered by %s, which compares through %s: program names that differ only in what it ignores denote one routine - a call of an undefined name is accepted, '
+            'a valid call is checked against the wrong parameter list' % (lko[0][0] if lko else '', lko[0][1] if lko else '', lko[0][2] if lko else '', '/'.join(lko[0][3]) if lko else ''),
+            'Compiler/src/gen.cpp', witness={'input': 'PROGRAM Add IN a, b DO x0 := a END; x1 := RUN add WITH 2, 3 END'} if lko else None)
     # literal range: the NUMBER case converts through the checked conversion
     num_ok = False
     for st in walk_stmts(dv['body']):
